@@ -54,17 +54,19 @@ def shurDhuhrMagh (t : TopAstroDay α) (w : Weather α) : Option α × α × Opt
   let dhuhrHa := hourAngle t.cur.sid t.cur.ra lon rd dhuhrM
   let dhuhrDm := dhuhrHa / Gen.TWO_PI_DEG
   let dhuhr := Gen.HRS_PER_DAY * (dhuhrM - dhuhrDm)
-  match shurMaghM0Adj t.coords.lat t.cur.dec with
-  | some adj =>
-    let dd := decInterpDeltas t.prev.dec t.cur.dec t.next.dec
-    let shurM := capAngle1 (m0 - adj)
-    let shurHa := hourAngle t.cur.sid t.cur.ra lon rd shurM
-    let shur := shurMagh t.coords.lat t.cur.dec t.cur.dra w dd shurM shurHa
-    let maghM := capAngle1 (m0 + adj)
-    let maghHa := hourAngle t.cur.sid t.cur.ra lon rd maghM
-    let magh := shurMagh t.coords.lat t.cur.dec t.cur.dra w dd maghM maghHa
-    (some shur, dhuhr, some magh)
-  | none => (none, dhuhr, none)
+  let sm : Option α × Option α :=
+    match shurMaghM0Adj t.coords.lat t.cur.dec with
+    | some adj =>
+      let dd := decInterpDeltas t.prev.dec t.cur.dec t.next.dec
+      let shurM := capAngle1 (m0 - adj)
+      let shurHa := hourAngle t.cur.sid t.cur.ra lon rd shurM
+      let shur := shurMagh t.coords.lat t.cur.dec t.cur.dra w dd shurM shurHa
+      let maghM := capAngle1 (m0 + adj)
+      let maghHa := hourAngle t.cur.sid t.cur.ra lon rd maghM
+      let magh := shurMagh t.coords.lat t.cur.dec t.cur.dra w dd maghM maghHa
+      (some shur, some magh)
+    | none => (none, none)
+  (sm.1, dhuhr, sm.2)
 
 /-- the twilight hour-angle cosine for depression angle `a` -/
 def twilightCos (lat dec a : α) : α :=
